@@ -9,6 +9,7 @@ import ALV.Lemmas.C06Algebra
 import ALV.Lemmas.C06TwoCalls
 import ALV.Lemmas.C06TwoCallsFull
 import ALV.Lemmas.C06Expr
+import ALV.Lemmas.C06Hub
 import ALV.Common.Audit
 
 set_option linter.unusedSectionVars false
@@ -729,6 +730,131 @@ theorem expr_reads_once (t : ALV.C06.Tree K) (f : ZFT K) (e : evalTree t = .ok (
       = .ok (ys.take k, ⟨(dense f.num).map (fun c => c.items.drop k),
                           (dense f.den).tail.map (fun c => c.items.drop k)⟩) :=
   callTV_const_take f.num f.den mem zero xs g hc h0 hg k ys its hr hk
+
+/-! ### C06.12 the tee / thub bookkeeping: sources, hubs, copies (`ALV.C06.Hub`)
+
+The machine: a leaf Stream wraps a SOURCE iterator; `thub(stream, n)` / `Stream.copy()` is a tee group
+whose copies share a buffer of the items pulled from upstream so far (a copy that is behind reads
+the buffer, the one that is ahead pulls upstream once); `Poly.__mul__`, `Poly.__truediv__` and the
+Stream-gain rewriting allocate the groups (`mulHub`, `divHub`, `gainHub`); the generated loop calls
+`next` on every coefficient iterator once per output (`round`). -/
+section hub
+open ALV.C06.Hub
+
+/-- **C06.12a** (`hub_advances_max_over_copies`): for EVERY iterator (any nesting of hubs and maps, any
+order of the calls, failed calls included) one `next` keeps, for every tee group, the number of
+upstream pulls (= buffer length) equal to the MAXIMUM of the positions of its copies; and for a source
+wrapped by one hub, the number of pulls of the SOURCE equal to that buffer length, the buffer being
+exactly the items pulled so far. -/
+theorem hub_advances_max_over_copies (srcs : Nat → Src K) (k g : Nat) (t : It K) (st : St K)
+    (wf : t.WF) (ow : t.Owned k g) (hm : GroupMax st g) (ho : OwnedInv srcs st k g) :
+    GroupMax (next srcs t st).1 g ∧ OwnedInv srcs (next srcs t st).1 k g
+    ∧ ((next srcs t st).1.buf g).length = (next srcs t st).1.pulls k :=
+  ⟨next_groupMax srcs t g st wf hm, next_owned srcs k g t st wf ow ho,
+    ownedInv_len (next_owned srcs k g t st wf ow ho)⟩
+
+/-- what the two invariants say: the source has been pulled exactly max-over-copies times -/
+theorem hub_pulls_eq_max (srcs : Nat → Src K) (k g : Nat) (st : St K) (hm : GroupMax st g)
+    (ho : OwnedInv srcs st k g) :
+    (∀ i, st.pos g i ≤ st.pulls k) ∧ (st.pulls k = 0 ∨ ∃ i, st.pos g i = st.pulls k) := by
+  have h := ownedInv_len ho
+  rw [← h]; exact hm
+
+/-- **C06.12b** (`hub_copy_is_real_copy`): every copy of a hub over a source delivers the source's
+items in order from its OWN position — whatever the other copies have read — and ends exactly when it
+has delivered all of them (with the source's own exception if it raises). -/
+theorem hub_copy_is_real_copy (srcs : Nat → Src K) (k g i : Nat) (st : St K) (ho : OwnedInv srcs st k g)
+    (hm : GroupMax st g) :
+    (next srcs (It.tee g i (It.src k)) st).2
+      = match (srcs k).items[st.pos g i]? with
+        | some v => Res.ok v
+        | none => if (srcs k).raises then Res.raise else Res.stop :=
+  next_copy_value srcs k g i st ho hm
+
+/-- … in particular a finite `itertools.repeat(c, n)` behind a hub gives `n` items to EVERY copy (not
+`n / m`: the copies never share the countdown) -/
+theorem hub_finite_repeat (srcs : Nat → Src K) (k g i n : Nat) (c : K) (st : St K)
+    (hs : srcs k = ⟨List.replicate n c, false⟩) (ho : OwnedInv srcs st k g) (hm : GroupMax st g) :
+    (next srcs (It.tee g i (It.src k)) st).2 = if st.pos g i < n then Res.ok c else Res.stop := by
+  rw [next_copy_value srcs k g i st ho hm, hs]
+  by_cases h : st.pos g i < n
+  · simp [h, List.getElem?_replicate]
+  · simp [h, List.getElem?_replicate]
+
+/-- **C06.12c** (`hub_reads_once_per_sample`): the coefficients handed to the loop are built over a hub
+that wraps source `k`, each copy of the hub used at most once among them (and at least one): one
+successful evaluation of the generated expression advances the SOURCE by exactly one item, however
+many copies the algebra made; and the hypotheses hold again afterwards. -/
+theorem hub_reads_once_per_sample (srcs : Nat → Src K) (k g : Nat) (cs : List (HC K)) (st st' : St K)
+    (vs : List K) (wf : ∀ c ∈ cs, c.WF) (fl : ∀ c ∈ cs, c.Flat) (ow : ∀ c ∈ cs, c.Owned k g)
+    (hm : GroupMax st g) (ho : OwnedInv srcs st k g)
+    (once : ∀ i, occR g i cs ≤ 1) (used : ∃ i, occR g i cs = 1)
+    (sync : ∀ i, occR g i cs = 1 → st.pos g i = st.pulls k)
+    (hr : round srcs cs st = (st', .ok vs)) :
+    st'.pulls k = st.pulls k + 1 ∧ GroupMax st' g ∧ OwnedInv srcs st' k g
+      ∧ (∀ i, occR g i cs = 1 → st'.pos g i = st'.pulls k) :=
+  round_reads_once srcs k g cs st st' vs wf fl ow hm ho once used sync hr
+
+/-- **C06.12d** (`hub_reads_once`): from the state `filt(x)` leaves (nothing read), after `n` outputs
+the source has been pulled exactly `n` times. -/
+theorem hub_reads_once (srcs : Nat → Src K) (k g : Nat) (cs : List (HC K))
+    (wf : ∀ c ∈ cs, c.WF) (fl : ∀ c ∈ cs, c.Flat) (ow : ∀ c ∈ cs, c.Owned k g)
+    (once : ∀ i, occR g i cs ≤ 1) (used : ∃ i, occR g i cs = 1) (n : Nat) (st' : St K)
+    (h : roundsOk srcs cs n St.init st') : st'.pulls k = n := by
+  have := rounds_reads_once srcs k g cs wf fl ow once used n St.init st' (groupMax_init g)
+    (ownedInv_init srcs k g) (fun _ _ => rfl) h
+  simpa [St.init] using this
+
+/-- **C06.12e** (`shared_stream_object`): the SAME Stream object stored directly in `m` coefficients
+(no hub — the assumption "every Stream object is used once" broken): `m` pulls per output sample. -/
+theorem shared_stream_object (srcs : Nat → Src K) (k : Nat) (cs : List (HC K)) (nh : ∀ c ∈ cs, c.NoHub k)
+    (n : Nat) (st' : St K) (h : roundsOk srcs cs n St.init st') : st'.pulls k = n * dirR k cs := by
+  have := rounds_shared_direct srcs k cs nh n St.init st' h
+  simpa [St.init] using this
+
+/-- **C06.12f** (`call_reads_nothing`): when `filt(x)` has returned — polynomials built, Stream-gain
+rewriting done, generator created — every source has been pulled 0 times, the one behind the leading
+denominator coefficient included: the first read happens at the first output request. -/
+theorem call_reads_nothing (srcs : Nat → Src K) (nsrc : Nat) (num den : PE K) (zero : K) (xs : List K) :
+    (callH srcs nsrc num den zero xs).atCall = List.replicate nsrc 0 :=
+  callH_atCall srcs nsrc num den zero xs
+
+/-- **C06.12g** (`hub_loop_step`, raising coefficient included): the loop yields one output per
+successful evaluation and records the pulls of that moment; an evaluation in which a coefficient
+iterator ends (`StopIteration`) or RAISES ends the loop without an output, with that flag. -/
+theorem hub_loop_step (srcs : Nat → Src K) (nsrc : Nat) (b as : List (HC K)) (a0 zero x : K)
+    (xs hx hy : List K) (st : St K) :
+    (∀ st1 vs, round srcs (b ++ as) st = (st1, .ok vs) →
+      ∃ y, loopH srcs nsrc b as a0 zero (x :: xs) hx hy st
+        = (y :: (loopH srcs nsrc b as a0 zero xs (x :: hx) (y :: hy) st1).1,
+           (List.range nsrc).map st1.pulls :: (loopH srcs nsrc b as a0 zero xs (x :: hx) (y :: hy) st1).2.1,
+           (loopH srcs nsrc b as a0 zero xs (x :: hx) (y :: hy) st1).2.2.1,
+           (loopH srcs nsrc b as a0 zero xs (x :: hx) (y :: hy) st1).2.2.2))
+    ∧ (∀ st1, round srcs (b ++ as) st = (st1, .stop) →
+        loopH srcs nsrc b as a0 zero (x :: xs) hx hy st = ([], [], st1, .stop))
+    ∧ (∀ st1, round srcs (b ++ as) st = (st1, .raise) →
+        loopH srcs nsrc b as a0 zero (x :: xs) hx hy st = ([], [], st1, .raise)) :=
+  loopH_step srcs nsrc b as a0 zero x xs hx hy st
+
+/-- non-vacuity: `Stream(repeat(1/2, 3)) * (1 + z^-1)` — `Poly.__mul__` makes a hub with two copies -/
+example : (mulHub [((0 : Int), HC.s (It.src 0))] [(0, HC.c (1 : Rat)), (1, HC.c 1)] 0).1
+    = [(0, HC.s (.br .mul (.tee 0 0 (.src 0)) 1)), (1, HC.s (.br .mul (.tee 0 1 (.src 0)) 1))] := by
+  decide +kernel
+example : (callH (fun _ => ⟨[1/2, 1/2, 1/2], false⟩) 1
+      (.mul (.poly [((0 : Int), HC.s (It.src 0))]) (.poly [(0, HC.c (1 : Rat)), (1, HC.c 1)]))
+      (.poly [(0, HC.c 1)]) 0 [1, 2, 3, 4, 5]).out = [1/2, 3/2, 5/2] := by decide +kernel
+example : (callH (fun _ => ⟨[1/2, 1/2, 1/2], false⟩) 1
+      (.mul (.poly [((0 : Int), HC.s (It.src 0))]) (.poly [(0, HC.c (1 : Rat)), (1, HC.c 1)]))
+      (.poly [(0, HC.c 1)]) 0 [1, 2, 3, 4, 5]).trace = [[1], [2], [3]] := by decide +kernel
+example := hub_reads_once (fun _ => (⟨[1/2, 1/2, 1/2], false⟩ : Src ℚ)) 0 0
+  [HC.s (.br .mul (.tee 0 0 (.src 0)) 1), HC.s (.br .mul (.tee 0 1 (.src 0)) 1)]
+  (by intro c hc; simp at hc; rcases hc with rfl | rfl <;> simp [HC.WF, It.WF, It.groups])
+  (by intro c hc; simp at hc; rcases hc with rfl | rfl <;> simp [HC.Flat, It.Flat, It.groups])
+  (by intro c hc; simp at hc; rcases hc with rfl | rfl <;> simp [HC.Owned, It.Owned])
+  (by intro i; simp only [occR, HC.occ, It.occ]; split <;> split <;> omega)
+  ⟨0, by simp [occR, HC.occ, It.occ]⟩
+
+end hub
 
 /-! ### non-vacuity -/
 
